@@ -573,7 +573,8 @@ parse_file(const char *file)
 
 #if defined HAVE_GETLINE
 	for (ssize_t nrd; (nrd = getline(&line, &llen, fp)) > 0;) {
-		parse_line(line, nrd - 1);
+		/* the last line may come without a newline */
+		parse_line(line, nrd - (line[nrd - 1] == '\n'));
 	}
 #elif defined HAVE_FGETLN
 	while ((line = fgetln(fp, &llen)) != NULL && llen > 0U) {
@@ -670,7 +671,7 @@ check_file(const char *file)
 
 #if defined HAVE_GETLINE
 	for (ssize_t nrd; (nrd = getline(&line, &llen, fp)) > 0;) {
-		rc |= check_line(line, nrd - 1);
+		rc |= check_line(line, nrd - (line[nrd - 1] == '\n'));
 	}
 #elif defined HAVE_FGETLN
 	while ((line = fgetln(fp, &llen)) != NULL && llen > 0U) {
